@@ -29,6 +29,9 @@ pub struct Obs {
     pub debug_stepwise: Option<(Result<String, String>, Result<String, String>, Option<Vec<Vec<usize>>>)>,
     pub build_panic: Option<String>,
     pub layout: Option<Layout>,
+    /// executed layout of the SAME dispatcher identified again after it has been used: after one clean dispatch,
+    /// and after a dispatch in which one system panicked (caught by the caller) - (what happened, layout or error)
+    pub layout_after_use: Vec<(String, Result<Layout, String>)>,
     pub ident_error: Option<String>,
     pub max_threads: usize,
     /// run counters after the script [seq, par, dispatch, thread_local, run_now]
@@ -112,6 +115,26 @@ pub fn observe(ops: &[Op], resmap: &[u8], need: Need) -> Obs {
     match identify(&mut d, &ctx, &world) {
         Ok(l) => o.layout = Some(l),
         Err(e) => o.ident_error = Some(e),
+    }
+    if need.debug && o.layout.is_some() {
+        // the printed plan describes the built dispatcher for as long as it lives: identify it again after use
+        let r = catch_unwind(AssertUnwindSafe(|| d.dispatch(&world)));
+        if r.is_ok() {
+            o.layout_after_use.push(("one clean dispatch".into(), identify(&mut d, &ctx, &world)));
+            let info = PlanInfo::of(ops);
+            if let Some(victim) = info.nodes.iter().find(|n| n.kind == crate::spec::Kind::Sys && !n.is_static) {
+                ctx.beh.lock().unwrap()[victim.id] = crate::hsys::Beh::PanicRun(u16::MAX);
+                let r = catch_unwind(AssertUnwindSafe(|| d.dispatch(&world)));
+                ctx.beh.lock().unwrap()[victim.id] = crate::hsys::Beh::Normal;
+                if r.is_err() && crate::hsys::world_borrow_state(&world).iter().all(|b| *b == 0) {
+                    o.layout_after_use.push((format!("a dispatch in which system {} panicked (caught)", victim.id), identify(&mut d, &ctx, &world)));
+                }
+            }
+        }
+        ctx.take_log();
+        for r in ctx.runs.lock().unwrap().iter_mut() {
+            *r = 0;
+        }
     }
     if need.setup_dispose {
         let mut w = World::empty();
